@@ -1,12 +1,14 @@
 """Shared pieces of the C02 check: signal families, transformed runs through the public API, the replay that
 measures decision margins (public interp_envelope / sd_stop / rilling_stop / fixed_stop / energy_stop only),
 and the metamorphic comparisons.  Nothing here knows the Lean model."""
+import json
 import math
 
 import numpy as np
 
 TOL = 1e-9            # value tolerance, times max(1, |x|_inf)            (DESIGN.md 3, rule 1)
 GUARD = 1e-7          # relative decision margin below which a case is skipped and counted   (rule 2)
+ENERGY_GUARD = 1e-12  # the energy flag under +-2^k: exact in Q, two separately rounded log10 in floats
 BAND = 2.0 ** 9       # sift_thresh is absolute: scale checks are skipped when a column abs-sum is this close to it
 
 POW2 = [s * 2.0 ** k for k in range(-8, 9) for s in (1.0, -1.0)]      # the 34 factors +-2^k, |k| <= 8
@@ -87,6 +89,26 @@ def few_n(rng):
 # options (JSON-able) -> keyword dictionaries of the public functions
 
 
+# "every ... padding setting": np.pad rules for the extrema magnitudes that are themselves linear, odd under negation and
+# mirror-symmetric (the law cannot hold for e.g. 'maximum' or a non-zero 'constant', and is not claimed for them); the
+# location rule must keep the locations strictly increasing beyond both edges: the (default) odd reflection, given explicitly
+MAG_PADS = [{'mode': 'mean', 'stat_length': 3}, {'mode': 'mean', 'stat_length': 2}, {'mode': 'median', 'stat_length': 3},
+            {'mode': 'edge'}, {'mode': 'reflect'}, {'mode': 'symmetric'}, {'mode': 'median', 'stat_length': 1}]
+LOC_PAD = {'mode': 'reflect', 'reflect_type': 'odd'}
+
+
+def random_pad_opts(rng, o):
+    """adds o['mag_pad'] (and sometimes the explicit default o['loc_pad']) in place"""
+    o['mag_pad'] = dict(rng.choice(MAG_PADS))
+    if rng.random() < 0.5:
+        o['loc_pad'] = dict(LOC_PAD)
+    return o
+
+
+def has_custom_pad(o):
+    return bool(o.get('mag_pad') or o.get('loc_pad'))
+
+
 def random_opts(rng, allow_parab=True):
     stop = rng.choice(['sd', 'rilling', 'fixed'])
     o = {'stop': stop, 'step': rng.choice([1.0, 0.5, 1.0 / 3.0, 0.25]),
@@ -120,8 +142,31 @@ def env_kwargs(o):
     return {'interp_method': o['method']}
 
 
+_SHARED = {}
+
+
+def begin_case():
+    """forget the option dictionaries handed out so far (called at the start of every case)"""
+    _SHARED.clear()
+
+
+def _shared_dict(d):
+    """the SAME dictionary object for equal contents within one case: a caller who keeps one options dictionary and passes it to
+    every call (base run, rescaled runs, reversed run) is the ordinary way of sifting "with the same options"; code that respects
+    C02 never modifies it (round-3 seeded change: get_padded_extrema pop()-ed 'mode' out of the caller's dictionary)"""
+    key = json.dumps(d, sort_keys=True)
+    if key not in _SHARED:
+        _SHARED[key] = dict(d)
+    return _SHARED[key]
+
+
 def ext_kwargs(o):
-    return {'pad_width': int(o['pad']), 'parabolic_extrema': bool(o.get('parab', 0))}
+    kw = {'pad_width': int(o['pad']), 'parabolic_extrema': bool(o.get('parab', 0))}
+    if o.get('mag_pad'):
+        kw['mag_pad_opts'] = _shared_dict(o['mag_pad'])
+    if o.get('loc_pad'):
+        kw['loc_pad_opts'] = _shared_dict(o['loc_pad'])
+    return kw
 
 
 # ---------------------------------------------------------------------------------------------
@@ -132,11 +177,45 @@ def _err(e):
     return {'kind': 'error', 'error': type(e).__name__, 'msg': str(e)[:120]}
 
 
+class Timeout(Exception):
+    pass
+
+
+RUN_BUDGET_S = 60.0
+
+
+class run_limit:
+    """wall-clock budget for one library run (SIGALRM; nested inside the framework's per-case alarm, which it restores)"""
+
+    def __init__(self, seconds=None):
+        self.seconds = RUN_BUDGET_S if seconds is None else seconds
+
+    def _raise(self, *a):
+        raise Timeout('no result after %.0f s' % self.seconds)
+
+    def __enter__(self):
+        import signal
+        import time
+        self.t0 = time.time()
+        self.old = signal.signal(signal.SIGALRM, self._raise)
+        self.left = signal.setitimer(signal.ITIMER_REAL, self.seconds)[0]
+
+    def __exit__(self, *a):
+        import signal
+        import time
+        signal.setitimer(signal.ITIMER_REAL, 0)
+        signal.signal(signal.SIGALRM, self.old)
+        if self.left:
+            signal.setitimer(signal.ITIMER_REAL, max(0.01, self.left - (time.time() - self.t0)))
+        return False
+
+
 def run_gni(x, o):
     import emd
     X = np.array(x, dtype=float)
     try:
-        imf, flag = emd.sift.get_next_imf(X, envelope_opts=env_kwargs(o), extrema_opts=ext_kwargs(o), **imf_kwargs(o))
+        with run_limit():
+            imf, flag = emd.sift.get_next_imf(X, envelope_opts=env_kwargs(o), extrema_opts=ext_kwargs(o), **imf_kwargs(o))
     except Exception as e:  # noqa
         return _err(e)
     return {'kind': 'ok', 'imf': np.asarray(imf, dtype=float).reshape(len(X), -1), 'flag': bool(flag)}
@@ -148,7 +227,8 @@ def run_sift(x, o):
     kw = {'imf_opts': imf_kwargs(o), 'envelope_opts': env_kwargs(o), 'extrema_opts': ext_kwargs(o),
           'sift_thresh': o.get('sift_thresh', 1e-8), 'max_imfs': o.get('max_imfs')}
     try:
-        imf = emd.sift.sift(X, **kw)
+        with run_limit():
+            imf = emd.sift.sift(X, **kw)
     except Exception as e:  # noqa
         return _err(e)
     return {'kind': 'ok', 'imf': np.asarray(imf, dtype=float).reshape(len(X), -1)}
@@ -170,7 +250,8 @@ def run_mask(x, o):
     import emd
     X = np.array(x, dtype=float)
     try:
-        imf, freqs = emd.sift.mask_sift(X, ret_mask_freq=True, **mask_kwargs(o))
+        with run_limit():
+            imf, freqs = emd.sift.mask_sift(X, ret_mask_freq=True, **mask_kwargs(o))
     except Exception as e:  # noqa
         return _err(e)
     return {'kind': 'ok', 'imf': np.asarray(imf, dtype=float).reshape(len(X), -1),
@@ -190,6 +271,7 @@ class Margins:
         self.where = ''
         self.layers = []            # per layer [stop, ext]
         self.thresh = math.inf      # |abs-sum - sift_thresh| / sift_thresh (matters for time reversal only)
+        self.energy = math.inf      # energy flag only (20 log10 of an energy ratio: scale-free in Q, not bit-invariant under 2^k)
 
     def begin_layer(self):
         self.layers.append([math.inf, math.inf])
@@ -292,6 +374,7 @@ def replay_gni(x, o, scale, mg, raw=True, tag=''):
             st, diff = S.energy_stop(X, X - proto, thresh=o['energy'])
             if math.isfinite(float(diff)):
                 mg.see_stop(abs(float(diff) - o['energy']) / abs(o['energy']), '%senergy' % tag)
+                mg.energy = min(mg.energy, abs(float(diff) - o['energy']) / abs(o['energy']))
             if st:
                 flag = False
                 exit_ += '+energy'
@@ -422,9 +505,13 @@ def _verdict(label, desc, base, res_imf_fn, res, scale, mg, exact, band, check_f
        - (tolerance checks) a layer of the base run has a decision at rounding distance: only the columns before it;
        - (scale checks of sift / mask_sift) a column abs-sum lies within 2^9 of the absolute sift_thresh: up to and including it."""
     tie = None if exact else mg.first_tie()
+    if (base['kind'] == 'error' and base['error'] == 'Timeout') or (res['kind'] == 'error' and res['error'] == 'Timeout'):
+        return ('skip', label + ':timeout', 'a run exceeded its wall-clock budget (run time is not C02\'s subject)')
     if base['kind'] == 'error' or res['kind'] == 'error':
-        if base['kind'] == res['kind'] and base['error'] == res['error']:
-            return ('ok', label, '')
+        if base['kind'] == res['kind']:
+            return ('ok', label, '')       # both runs are rejected: the statement is silent on which error class is raised
+        if exact and mg.energy < ENERGY_GUARD:
+            return ('skip', label + ':near-tie-energy', mg.where)
         if tie is not None:
             return ('skip', '%s:near-tie-%s' % (label, tie[1]), 'layer %d (%s)' % (tie[0], mg.where))
         if band is not None and base['kind'] == 'ok':
@@ -456,6 +543,8 @@ def _verdict(label, desc, base, res_imf_fn, res, scale, mg, exact, band, check_f
             return ('skip', why + ':upstream', 'columns before layer %d differ as well' % limit)
         return ('fail', label + ':columns-before-near-tie-differ', '%s: max deviation over the first %d columns = %.3g (%s)'
                 % (desc, limit, _dev(res_imf_fn(res['imf'])[:, :limit] if exact else r[:, :limit], b[:, :limit]), why))
+    if exact and mg.energy < ENERGY_GUARD and (r.shape != b.shape or not eq(r, b) or base.get('flag') != res.get('flag')):
+        return ('skip', label + ':near-tie-energy', mg.where)
     if r.shape != b.shape:
         return ('fail', label + ':imf-count-differs', '%s: %d columns, base %d (smallest stop margin %s at %s; smallest sample gap %s)'
                 % (desc, r.shape[1], b.shape[1], mg.stop, mg.where, mg.ext))
@@ -465,7 +554,8 @@ def _verdict(label, desc, base, res_imf_fn, res, scale, mg, exact, band, check_f
     if check_flag and 'flag' in base and base['flag'] != res.get('flag'):
         if mg.stop < GUARD:
             return ('skip', label + ':near-tie-energy', mg.where)
-        return ('fail', label + ':continue-flag-differs', '%s: base %s, transformed %s' % (desc, base['flag'], res.get('flag')))
+        # the continue flag is not an IMF (the statement speaks about extracted IMFs): mechanism-level
+        return ('fail-mechanism', label + ':continue-flag-differs', '%s: base %s, transformed %s' % (desc, base['flag'], res.get('flag')))
     return ('ok', label, '')
 
 
@@ -508,7 +598,20 @@ def real_factors(rng):
     return out
 
 
-def summarise(verdicts):
-    fails = [(k, d) for v, k, d in verdicts if v == 'fail']
+def is_exact_kind(kind):
+    """verdict kinds of the bit-for-bit class (+-2^k): they do not depend on any measured margin"""
+    return ':scale-pow2' in kind
+
+
+def summarise(verdicts, margins_unknown=False):
+    """fails: [kind, detail, literal].  margins_unknown (the replay that measures the decision margins does not reproduce the
+    run): the guard band of the tolerance-class verdicts (real c, reversal, negative c with masks) is unknown, so those are
+    mechanism-level; the bit-for-bit verdicts stay literal."""
+    fails = []
+    for v, k, d in verdicts:
+        if v == 'fail':
+            fails.append([k, d, not (margins_unknown and not is_exact_kind(k))])
+        elif v == 'fail-mechanism':
+            fails.append([k, d, False])
     skips = sorted({k for v, k, d in verdicts if v == 'skip'})
     return fails, skips
